@@ -280,8 +280,11 @@ def install_points(which="stop"):
         return sched.install({N.start: r"_connect_to_peer|for peer",
                               N._add_peer_connection: r"peer_sockets\[|socket_peers\[|self\.connections\[",
                               N._handle_connections: r"peer_sockets\.items|self\.connections\.get|_list\.append"})
-    # preemption at the lines of the reconnect pass, of stop() and of the registration of the new connection
-    return sched.install({N._reconnect_peers: None, N.stop: None, N._add_peer_connection: None})
+    # preemption at the lines of the reconnect pass, of stop(), of the dial and of the registration of the new connection
+    pts = {N._reconnect_peers: None, N.stop: None, N._add_peer_connection: None, N._connect_to_peer: None}
+    if hasattr(N, "_open_peer_connection"):
+        pts[N._open_peer_connection] = None
+    return sched.install(pts)
 
 
 def stop_race(decisions, force):
@@ -297,18 +300,9 @@ def stop_race(decisions, force):
         w.answer_cer(c, 2001, auth=(4,), host="peer1.example")
         w.peer_close(c)                      # loss at +0: a redial is due from +1 on
         while_stopping = []
-        # stop() and a reconnect pass that is already under way are concurrent: what the statement excludes is a dial
-        # by a pass that began when the node was already stopping
-        pass_began_stopping = [False]
-        real_pass = w.node._reconnect_peers
-
-        def reconnect_pass():
-            pass_began_stopping[0] = w.node._stopping
-            return real_pass()
-        w.node._reconnect_peers = reconnect_pass
 
         def policy(sock, addr):
-            if w.node._stopping and pass_began_stopping[0]:
+            if w.node._stopping:
                 while_stopping.append((w.k.now, addr))
             return "ok"
         w.net.dial_policy = policy
